@@ -1,6 +1,9 @@
 //! S->I executor for the C04 cases generated from spec/MC_Order.tla.
 #[path = "../rdata.rs"]
 mod rdata;
+#[path = "../order_carrier.rs"]
+mod order_carrier;
+use order_carrier::*;
 use rdata::order::*;
 use serde_json::json;
 use verif_harness::common::*;
@@ -19,6 +22,21 @@ fn main() {
             &input["a"],
             &input["b"],
             input["eqfree"].as_bool().unwrap_or(false),
+            input["canonfree"].as_bool().unwrap_or(false),
+        ),
+        Some("carrier") => observe_carrier(&input["c"]),
+        Some("cpair") => observe_carrier_pair(&input["a"], &input["b"]),
+        Some("crdata") => observe_carried_rdata(
+            &bytes_of(&input["a"]),
+            input["cs"].as_array().map(|v| &v[..]).unwrap_or(&[]),
+            &bytes_of(&input["b"]),
+            input["eqfree"].as_bool().unwrap_or(false),
+        ),
+        Some("crecord") => observe_carried_record(
+            &input["a"],
+            &input["oc"],
+            input["cs"].as_array().map(|v| &v[..]).unwrap_or(&[]),
+            &input["b"],
             input["canonfree"].as_bool().unwrap_or(false),
         ),
         _ => json!({"bad_case": true}),
